@@ -118,7 +118,7 @@ class Ref:
                 self.hit("param-default")
                 return self.ev(a[3], frame, stack, full)
             self.hit("param-undefined-literal")
-            return "{{{" + str(kk) + "}}}"
+            return "{{{" + a[1] + "}}}"      # stays literal AS WRITTEN (not the trimmed lookup key)
         if k == "CN":
             # the name part is expanded first (parser functions in it are evaluated when enabled); the call
             # then behaves like an ordinary call of that name, and is re-emitted under the EXPANDED name
